@@ -118,16 +118,29 @@ class Visitor(_BaseVisitor[T], abc.ABC):
     :param ob: An object to walk.
     """
     try:
+      self._walk(ob)
+    except self.SkipSiblings:
+      pass # raised by the visit of the root object, which has no siblings
+
+  def _walk(self, ob: T) -> None:
+    skip_siblings: Optional[Exception] = None
+    try:
       self.visit(ob)
     except (self.SkipChildren, self.SkipNode):
       return
     except self.SkipDeparture:           
       pass # not applicable; ignore
+    except self.SkipSiblings as e:
+      # The current node's children are not affected,
+      # the exception is re-raised to the parent's loop afterwards.
+      skip_siblings = e
     try:
       for child in self.get_children(ob):
-          self.walk(child)
+          self._walk(child)
     except self.SkipSiblings:
       pass
+    if skip_siblings is not None:
+      raise skip_siblings
     
   def visit(self, ob: T) -> None:
     """Extend the base visit with extensions.
@@ -174,8 +187,15 @@ class Visitor(_BaseVisitor[T], abc.ABC):
 
     :param ob: An object to walk.
     """
+    try:
+      self._walkabout(ob)
+    except self.SkipSiblings:
+      pass # raised by the visit of the root object, which has no siblings
+
+  def _walkabout(self, ob: T) -> None:
     call_depart = True
     skip_node = False
+    skip_siblings: Optional[Exception] = None
     try:
       try:
         self.visit(ob)
@@ -184,15 +204,21 @@ class Visitor(_BaseVisitor[T], abc.ABC):
         call_depart = False
       except self.SkipDeparture:           
         call_depart = False
+      except self.SkipSiblings as e:
+        # The current node's children and its departure are not affected,
+        # the exception is re-raised to the parent's loop afterwards.
+        skip_siblings = e
       if not skip_node:
         try:
           for child in self.get_children(ob):
-              self.walkabout(child)
+              self._walkabout(child)
         except self.SkipSiblings:
           pass
     except self.SkipChildren:
       pass
     self.depart(ob, extensions_only=not call_depart)
+    if skip_siblings is not None:
+      raise skip_siblings
 
 # Adapted from https://github.com/pawamoy/griffe
 # Copyright (c) 2021, Timothée Mazzucotelli
